@@ -2504,10 +2504,18 @@ func (r *RIB) Flush(networkInstances []string) error {
 		}
 
 		backupNHGs := []uint64{}
+		seenBackup := map[uint64]bool{}
 		for _, nhg := range niR.r.Afts.NextHopGroup {
-			if nhg.BackupNextHopGroup != nil {
-				backupNHGs = append(backupNHGs, *nhg.BackupNextHopGroup)
+			if nhg.BackupNextHopGroup == nil {
+				continue
 			}
+			id := *nhg.BackupNextHopGroup
+			// A backup NHG can be shared between groups, and is not required to exist.
+			if _, ok := niR.r.Afts.NextHopGroup[id]; !ok || seenBackup[id] {
+				continue
+			}
+			seenBackup[id] = true
+			backupNHGs = append(backupNHGs, id)
 		}
 
 		delNHG := func(id uint64) {
